@@ -223,3 +223,25 @@ def maybe_text(draw, lru):
         except UnicodeDecodeError:
             return lru
     return lru
+
+
+@st.composite
+def lru_under(draw, v, base):
+    """a URL LRU beneath `base` (a rule anchor or a webentity prefix): base + hosts (if base still ends in the host part)
+    + 0-3 path stems, so that rules anchored at base see LRUs on which they propose something"""
+    sts = stems_of(base)
+    out = base
+    if sts and (sts[-1].startswith(b"s:") or sts[-1].startswith(b"t:") or sts[-1].startswith(b"h:")):
+        nh = sum(1 for x in sts if x.startswith(b"h:"))
+        want = draw(st.sampled_from([2, 2, 3, 3, 1]))
+        last = sts[-1]
+        while nh < want:
+            cand = draw(st.sampled_from(v.hosts[:2] if nh == 0 else v.hosts[2:]))
+            if cand == b"h:www|" and last == b"h:www|":
+                break
+            out += cand
+            last = cand
+            nh += 1
+    for _ in range(draw(st.sampled_from([0, 1, 1, 2, 2, 3]))):
+        out += draw(st.sampled_from(v.paths))
+    return out
